@@ -101,6 +101,7 @@ func (n Name) Split() (parts []string) {
 			num = dg
 			capt = uc
 			buf.WriteRune(r)
+			lodash = lodash && r == '_'
 		}
 		parts = append(parts, buf.String())
 		return
